@@ -33,10 +33,10 @@ let rec parse_exchange (t : string) : exchange =
       { rq = rq; rs = rs; rd = rd }
   | _ -> failwith ("bad exchange token " ^ (if String.length t > 40 then String.sub t 0 40 else t))
 
-type pobs = { obs : conn_obs; fin : string; oerr : string list; special : string option }
+type pobs = { obs : conn_obs; fin : string; oerr : string list; special : string option; states : string list }
 
 let parse_out (outs : string list) : pobs =
-  let qs = ref [] and rs = ref [] and fin = ref "missing" and oerr = ref [] and special = ref None in
+  let qs = ref [] and rs = ref [] and fin = ref "missing" and oerr = ref [] and special = ref None and states = ref [] in
   List.iter (fun t ->
       match String.split_on_char ':' t with
       | ["Q"; m; tg; hd; b] ->
@@ -45,13 +45,14 @@ let parse_out (outs : string list) : pobs =
            | _ -> failwith "bad Q body")
       | ["R"; st; hd; b; _fr; ok] ->
           (match String.split_on_char '.' b with
-           | [l; d] -> rs := { c_status = n_of_dec st; c_hdrs = parse_hdrs hd; c_body = body_of l d; c_complete = (ok = "ok") } :: !rs
+           | [l; d] -> states := ok :: !states;
+                       rs := { c_status = n_of_dec st; c_hdrs = parse_hdrs hd; c_body = body_of l d; c_complete = (ok = "ok") } :: !rs
            | _ -> failwith "bad R body")
       | ["END"; e] -> fin := e
       | "OERR" :: e :: _ -> oerr := e :: !oerr
       | _ -> special := Some t) outs;
   { obs = { origin_saw = List.rev !qs; client_got = List.rev !rs; closed = (!fin = "closed") };
-    fin = !fin; oerr = List.rev !oerr; special = !special }
+    fin = !fin; oerr = List.rev !oerr; special = !special; states = List.rev !states }
 
 let str (c : char list) = String.escaped (string_of_chars c)
 
@@ -91,7 +92,8 @@ let judge_res es o sv p =
   match first_bad res_preserved_b (List.map resp_of sv) o.client_got 0 with
   | Some (i, Some (r, c)) ->
       let what =
-        if not c.c_complete then "client-cannot-frame-response(" ^ p.fin ^ ")"
+        if not c.c_complete then
+          "client-cannot-frame-response(" ^ (match List.nth_opt p.states i with Some st -> st | None -> "?") ^ "," ^ p.fin ^ ")"
         else if c.c_status <> r.status then "status got=" ^ dec_of_n c.c_status
         else if not (body_eqb c.c_body r.sbody) then
           Printf.sprintf "body want-len=%s got-len=%s" (dec_of_n r.sbody.blen) (dec_of_n c.c_body.blen)
@@ -132,6 +134,18 @@ let judge_conn ins outs =
            | _ -> judge_res es o sv p
          end
          else if not (c01_res_ok es o) then judge_res es o sv p
+         else if not (c01_frm_ok es o) then begin
+           (* bodiless response: presence and value of Content-Length / Transfer-Encoding *)
+           match first_bad res_framing_preserved_b (List.map resp_of sv) o.client_got 0 with
+           | Some (i, Some (r, c)) ->
+               let bad = List.find_opt (fun n -> not (strs_eqb (vals n c.c_hdrs) (vals n r.shdrs)))
+                   [chars_of_string "content-length"; chars_of_string "transfer-encoding"] in
+               let n = match bad with Some n -> n | None -> [] in
+               VPropfail ("bodiless_framing_headers",
+                          Printf.sprintf "exchange=%d status=%s name=%s want=%s got=%s" i (dec_of_n r.status) (str n)
+                            (pr_vals (vals n r.shdrs)) (pr_vals (vals n c.c_hdrs)))
+           | _ -> VDisagree "oracle-inconsistent"
+         end
          else if not (c01_close_ok es o) then
            VPropfail ("keepalive", Printf.sprintf "after-response=%d connection=%s want-closed=%b"
                         (List.length o.client_got) p.fin (List.exists wants_close es))
